@@ -400,6 +400,14 @@ struct Lab {
         v.push_back(def_item<kick, typename kick::template add_function<kick_animal>>("kick(Animal)", 0, {cAnimal}, 103));
         v.push_back(def_item<kick, typename kick::template add_function<kick_robodog>>("kick(RoboDog)", 0, {cRoboDog}, 104));
         v.push_back(def_item<kick, typename kick::template add_definition<kick_cat_next>>("kick(Cat)+next", 0, {cCat}, 105, true));
+        {
+            // the container's next pointer is a static of the unloaded image
+            static void (*inner)() = v.back().unload;
+            v.back().unload = [] {
+                inner();
+                kick_cat_next::next = nullptr;
+            };
+        }
         v.push_back(def_item<meet, typename meet::template add_function<meet_dog_cat>>("meet(Dog,Cat)", 1, {cDog, cCat}, 201));
         v.push_back(def_item<meet, typename meet::template add_function<meet_animal_animal>>("meet(Animal,Animal)", 1, {cAnimal, cAnimal}, 202));
         v.push_back(def_item<meet, typename meet::template add_function<meet_bulldog_animal>>("meet(Bulldog,Animal)", 1, {cBulldog, cAnimal}, 203));
